@@ -6,12 +6,13 @@ Prints, per property, whether the check reported a VIOLATION (caught) and the fi
 """
 import subprocess, sys, os, json
 ROOT = os.path.dirname(os.path.dirname(os.path.abspath(__file__)))
+REPO = os.environ.get("STRAND_REPO", "/repo")
 patch = os.path.abspath(sys.argv[1]); props = sys.argv[2:]
 def sh(cmd, **kw): return subprocess.run(cmd, stdout=subprocess.PIPE, stderr=subprocess.STDOUT, **kw)
-st = sh(["git", "-C", "/repo", "status", "--porcelain", "--untracked-files=no"]).stdout.decode().strip()
+st = sh(["git", "-C", REPO, "status", "--porcelain", "--untracked-files=no"]).stdout.decode().strip()
 if st:
     print("refusing: /repo has uncommitted changes:\n" + st); sys.exit(2)
-r = sh(["git", "-C", "/repo", "apply", patch])
+r = sh(["git", "-C", REPO, "apply", patch])
 if r.returncode != 0:
     print("patch does not apply:", r.stdout.decode()); sys.exit(2)
 res = {}
@@ -25,7 +26,7 @@ try:
         for l in out.strip().split("\n")[:5] + out.strip().split("\n")[-1:]:
             print("   " + l[:260])
 finally:
-    sh(["git", "-C", "/repo", "checkout", "--", "."])
+    sh(["git", "-C", REPO, "checkout", "--", "."])
     # the translator ran against the patched tree: regenerate from the restored one
     sh([sys.executable, os.path.join(ROOT, "tools", "gen_constants.py")])
     # restore evidence written while the patch was applied
